@@ -33,6 +33,7 @@ def toksStr (ts : List Tok) : String := joinSp (ts.map tokStr)
 def errStr : Err → String
   | .valueError => "err:ValueError" | .typeError => "err:TypeError" | .indexError => "err:IndexError"
   | .attributeError => "err:AttributeError" | .hang => "err:timeout" | .fuel => "err:fuel"
+  | .unsupported => "err:unsupported"
 
 def callStr : Except Err (List Tok × List Tok) → String
   | .ok (e, r) => s!"ok:{toksStr e} / {toksStr r}"
@@ -147,15 +148,17 @@ def handle : List String → String
       -- the model gets 3·fuel+10: it spends up to two units per expansion where the Spec spends one, so it never runs out
       -- of fuel on a program on which the Spec succeeds (cf. `run_eq_texRun_language_partial`: "for all sufficiently large fuel");
       -- aux 3 repeats the Spec's answer for the implementation runner (time limits)
-      let sp := tvisStr (texProgram fuel toks)
-      s!"{visStr (runProgram (3 * fuel + 10) toks)}\t{sp}\t{visStr (runProgramRepaired (3 * fuel + 10) toks)}\t{tvisStr (texRun fragOk fuel ⟨toks, primTable, []⟩)}\t{sp}"
+      -- the oracle is the macro language WITH `\ifx` (`texProgramC`); aux 4 = the same without conditionals (`texProgram`, the
+      -- evaluator of the program-level theorems): where it is defined the two must agree
+      let sp := tvisStr (texProgramC fuel toks)
+      s!"{visStr (runProgram (3 * fuel + 10) toks)}\t{sp}\t{visStr (runProgramRepaired (3 * fuel + 10) toks)}\t{tvisStr (texRun fragOk fuel ⟨toks, primTable, []⟩)}\t{sp}\t{tvisStr (texProgram fuel toks)}"
     | _, _ => "bad-op"
   | "progt" :: fuelW :: ws =>
     -- the same on an explicit token list
     match fuelW.toNat?, toks? ws with
     | some fuel, some toks =>
-      let sp := tvisStr (texProgram fuel toks)
-      s!"{visStr (runProgram (3 * fuel + 10) toks)}\t{sp}\t{visStr (runProgramRepaired (3 * fuel + 10) toks)}\t{tvisStr (texRun fragOk fuel ⟨toks, primTable, []⟩)}\t{sp}"
+      let sp := tvisStr (texProgramC fuel toks)
+      s!"{visStr (runProgram (3 * fuel + 10) toks)}\t{sp}\t{visStr (runProgramRepaired (3 * fuel + 10) toks)}\t{tvisStr (texRun fragOk fuel ⟨toks, primTable, []⟩)}\t{sp}\t{tvisStr (texProgram fuel toks)}"
     | _, _ => "bad-op"
   | _ => "bad-op"
 
